@@ -77,8 +77,23 @@ def parse_errors(stderr, gen_lines, fname):
                     lab = (tuple(lm.group(1).split(",")), lm.group(2))
                     if lab not in labels:
                         labels.append(lab)
-        errs.append({"code": code, "message": msg, "lines": lines, "labels": labels, "text": b[:3000]})
+        errs.append({"code": code, "message": msg, "lines": lines, "labels": labels, "text": b[:3000], "primary": int(m2.group(1)) if m2 else None})
     return errs
+
+PANIC_CLASSES = ("precondition not satisfied", "possible arithmetic underflow/overflow", "possible division by zero", "arithmetic underflow", "arithmetic overflow",
+                 "index out of bounds", "possible bit shift")
+
+def real_code_lines(gen_lines):
+    """line numbers (1-based) that hold extracted repository code: inside a take region and not marked as inserted ghost text"""
+    real = set()
+    in_prelude = False
+    for i, l in enumerate(gen_lines, 1):
+        if "==== ghost/prelude text begin ====" in l: in_prelude = True; continue
+        if "==== ghost/prelude text end ====" in l: in_prelude = False; continue
+        if in_prelude or l.rstrip().endswith("//~g") or l.startswith("// ---- "):
+            continue
+        real.add(i)
+    return real
 
 def enclosing_fn(gen_lines, ln):
     """name of the fn (and impl header) enclosing generated line ln (best effort, for reporting)"""
@@ -179,6 +194,10 @@ def run_unit(unit, repo="/repo", extra_args=None, timeout=900):
         if r.verified == 0:
             r.status = "undecided"; r.reason = "vacuous: verus verified 0 functions"
         return r
+    real = real_code_lines(gen_lines)
+    for e in errs:
+        # a panic-class failure whose primary span is extracted repository code (not inserted ghost text): C12
+        e["panic_in_real_code"] = bool(e.get("primary") in real and not e["labels"] and any(c in e["message"] for c in PANIC_CLASSES))
     for e in errs:
         if e["lines"]:
             # the trait-level ensures line comes first; the impl that failed it is the span further down the file
